@@ -163,6 +163,12 @@ type urlVec struct {
 	VFile  validateRes `json:"vfile"`
 	VHTTP  validateRes `json:"vhttp"`
 	VGRPC  validateRes `json:"vgrpc"`
+	// the same under ASCII-only folding (differs only for U+017F): also accepted
+	IsHTTPA bool        `json:"ishttpa"`
+	IsGRPCA bool        `json:"isgrpca"`
+	VFileA  validateRes `json:"vfilea"`
+	VHTTPA  validateRes `json:"vhttpa"`
+	VGRPCA  validateRes `json:"vgrpca"`
 }
 
 func replayURL(args []string) error {
@@ -173,7 +179,7 @@ func replayURL(args []string) error {
 	if err != nil {
 		return err
 	}
-	var calls, unicodeOnly atomic.Int64
+	var calls, unicodeOnly, asciiOnly atomic.Int64
 	dd := newDedup()
 	n, err := forEachParallel(args[0], 0, func(line int, raw []byte) error {
 		var v urlVec
@@ -187,21 +193,30 @@ func replayURL(args []string) error {
 		rng := rand.New(rand.NewPCG(vh.Seed(), uint64(line)))
 		for rep := 0; rep < 3; rep++ {
 			scheme := concretiseScheme(v.Scheme, rng)
+			// Where Unicode and ASCII-only folding differ (U+017F) either is accepted, but the
+			// predicate and the validator of a kind must make the same choice.
+			ascii := map[string]bool{}
 			if !v.IsNil {
-				if got := urlutil.IsValidHTTPURLScheme(scheme); got != v.IsHTTP {
+				gotH, gotG := urlutil.IsValidHTTPURLScheme(scheme), urlutil.IsValidGRPCURLScheme(scheme)
+				if gotH != v.IsHTTP && gotH != v.IsHTTPA {
 					res.Mismatch(fmt.Sprintf("IsValidHTTPURLScheme(%q)", scheme),
-						fmt.Sprintf("returned %v, the specification says %v", got, v.IsHTTP), map[string]any{"vector": v, "scheme": scheme})
+						fmt.Sprintf("returned %v, the specification says %v", gotH, v.IsHTTP), map[string]any{"vector": v, "scheme": scheme})
 				}
-				if got := urlutil.IsValidGRPCURLScheme(scheme); got != v.IsGRPC {
+				if gotG != v.IsGRPC && gotG != v.IsGRPCA {
 					res.Mismatch(fmt.Sprintf("IsValidGRPCURLScheme(%q)", scheme),
-						fmt.Sprintf("returned %v, the specification says %v", got, v.IsGRPC), map[string]any{"vector": v, "scheme": scheme})
+						fmt.Sprintf("returned %v, the specification says %v", gotG, v.IsGRPC), map[string]any{"vector": v, "scheme": scheme})
 				}
+				ascii["vhttp"], ascii["vgrpc"] = gotH != v.IsHTTP, gotG != v.IsGRPC
 				calls.Add(2)
-				if (v.IsHTTP || v.IsGRPC) && !isASCII(scheme) {
+				if (v.IsHTTP && gotH && !v.IsHTTPA) || (v.IsGRPC && gotG && !v.IsGRPCA) {
 					unicodeOnly.Add(1)
 				}
 			}
 			for fn, want := range map[string]validateRes{"vfile": v.VFile, "vhttp": v.VHTTP, "vgrpc": v.VGRPC} {
+				alt := map[string]validateRes{"vfile": v.VFileA, "vhttp": v.VHTTPA, "vgrpc": v.VGRPCA}[fn]
+				if ascii[fn] {
+					want = alt
+				}
 				var u *url.URL
 				if !v.IsNil {
 					u = &url.URL{Scheme: scheme}
@@ -211,6 +226,12 @@ func replayURL(args []string) error {
 				err := validators[fn](u)
 				calls.Add(1)
 				key := fmt.Sprintf("%s(%s)", fnName(fn), describeURL(u))
+				if got := errKind(err); fn == "vfile" && got != want.Err && got == alt.Err && (err == nil) == alt.OK {
+					want = alt // no predicate to be consistent with
+				}
+				if want.Err != map[string]validateRes{"vfile": v.VFile, "vhttp": v.VHTTP, "vgrpc": v.VGRPC}[fn].Err {
+					asciiOnly.Add(1)
+				}
 				if got := errKind(err); got != want.Err || (err == nil) != want.OK {
 					res.Mismatch(key, fmt.Sprintf("error kind %q (%v), the specification says %q", got, err, want.Err),
 						map[string]any{"vector": v, "scheme": scheme})
@@ -237,7 +258,7 @@ func replayURL(args []string) error {
 		return err
 	}
 	return res.Close(map[string]any{"replayed": n, "calls": calls.Load(), "distinct_nontrivial": dd.n(),
-		"valid_only_under_unicode_folding": unicodeOnly.Load()})
+		"valid_only_under_unicode_folding": unicodeOnly.Load(), "ascii_only_folding_answers": asciiOnly.Load()})
 }
 
 func isASCII(s string) bool {
